@@ -65,6 +65,22 @@ SUMMARY = {
  'C14-r2-2': 'compile_successors shortcut assumes class indices line up when class counts are equal',
  'C16-r2-1': 'flexible_match accepts a Sigma^[k,inf) gap when the region has >= k elements, even nullable ones: a.b*.c <= a.Sigma+.c',
  'C16-r2-2': 'sub_language complement swap: not(a) <= not([a-z]) claimed',
+ 'C06-r2-1': 'str_replace_all fast path for |p| = |r| rescans replaced text: replace_all("aaa","aa","ba") = "bba"',
+ 'C06-r2-2': 'str_substr clips the window to [0,len): negative start with i+n > 0 returns a prefix',
+ 'C08-r2-1': 'close_escape_seq re-scans a decoded backslash: \\u{5c}u0041 parses to "A"',
+ 'C08-r2-2': 'AfterSlashUHex failure branch pushes instead of consuming: no restart of an escape after \\u00',
+ 'C09-r2-1': 'lexicographic comparison by blocks of 8 with a wrong tail bound: order wrong for common prefixes >= 8',
+ 'C09-r2-2': 'char_is_digit via truncating cast to u8: U+0131 counted as digit',
+ 'C11-r2-1': 'good_char_set decided from the classes of the two end points',
+ 'C11-r2-2': 'try_from_iter disjointness via partial_cmp: identical sets accepted',
+ 'C15-r2-1': 'right_mul_is_exact via integer division c >= (a-1)/(b-a): rounds down',
+ 'C15-r2-2': 'scale fast path returns self for [a<=1, inf): plus.scale(2) = plus',
+ 'C17-r2-1': 'flush_pending keeps escape_code: abandoned escape followed by \\uXXXX yields 0x12FFFF',
+ 'C17-r2-2': 'From<&str> fast path guarded by average UTF-8 length: "a"+U+30000 kept raw',
+ 'C18-r2-1': 'start_char Concat with nullable left operand ignores emptiness of the right operand',
+ 'C18-r2-2': 'is_nullable(Loop) ignores a nullable body: start_char((eps+a)^2.b, b) false',
+ 'C20-r2-1': 'inter_list early exit on a singleton intermediate result',
+ 'C20-r2-2': 'union adjacency test with a stray -1 in the reverse order: gap of one character merged',
  'C19-r2-1': 'DerivativeIterator expands only nodes with interval classes',
  'C19-r2-2': 'compile_with_bound counts on discovery with a sink fast path before the bound check: try_compile(Sigma^3, 4) returns 5 states',
 }
